@@ -34,6 +34,13 @@ Theorem C13_error_iff_missing : forall g v imp exc (ss os : list (@filt comp)),
    exists f, In f (ss ++ os) /\ exists_f ceqb g f = false).
 Proof. exact (error_iff_missing ceqb ceqb_spec rmatch). Qed.
 
+(* the same for 'should not import / be imported by anything', also when the alias rewrite drops the absent name
+   from the subject list because its parent is listed too (D23) *)
+Theorem C13_alias_unknown_name : forall g imp (Ss : list (@ufilt comp)) f,
+  In f (plain Ss) -> exists_f ceqb g f = false ->
+  is_verdict (AlgebraProofs.V ceqb rmatch g (any_cfg imp Ss)) = false.
+Proof. exact (alias_unknown_name_is_error ceqb ceqb_spec rmatch). Qed.
+
 (* a regex matching nothing: never a verdict (subject position; object position: C11_no_match_object) *)
 Theorem C13_no_match : forall g v imp exc p Os,
   ExpansionProofs.matching rmatch g p = [] ->
@@ -87,6 +94,7 @@ Print Assumptions C13_rule_history.
 Print Assumptions C13_rule_incomplete_is_error.
 Print Assumptions C13_unknown_name.
 Print Assumptions C13_error_iff_missing.
+Print Assumptions C13_alias_unknown_name.
 Print Assumptions C13_no_match.
 Print Assumptions C13_layer_history.
 Print Assumptions C13_layer_undefined.
